@@ -285,6 +285,70 @@ def check_connect_table(res, P):
     res.floor("Connect construction sites", n, 1)
 
 
+def check_ban_is_immediate(res, P):
+    """"once a peer has been banned (by violation, error threshold or explicit command) the initiator never again asks to
+    connect to it" rests on the ban being *recorded in the banned set in the same step* that decides it: the per-peer flags a
+    deferred ban would rely on (violation, error count) are cleared by InitiatorState::reset() on disconnect.
+      (a) the BanPeer command path calls a function that inserts into banned_peers;
+      (b) every PeerVisitor method of PromotionBehavior that can ban (reaches such a function) reaches it on every path to its
+          return — no early return before the ban decision."""
+    def inserts_banned(f):
+        for bi, t in f.calls():
+            if flow.callee_name(t).endswith("HashSet::insert"):
+                ch = flow.arg_chain(f, t, 0)
+                if ch is not None and ch[1] and ch[1][-1] == "banned_peers":
+                    return True
+        return False
+    base = {f.path for f in P.by_crate.get("pallas_network2", []) if inserts_banned(f)}
+    if not base:
+        res.violation("ban:no-banning-function", "no function inserts into banned_peers (anchor lost)", rule="anchor")
+        return
+    # functions from which a banning function is reachable (within the initiator behaviour)
+    can_ban = set(base)
+    changed = True
+    fns = [f for f in P.by_crate.get("pallas_network2", []) if "behavior::initiator" in f.path]
+    while changed:
+        changed = False
+        for f in fns:
+            if f.path in can_ban:
+                continue
+            if any((t.get("f") or "") in can_ban for bi, t in f.calls()):
+                can_ban.add(f.path)
+                changed = True
+    # (a) the command
+    ex = [f for f in fns if re.search(r"InitiatorBehavior as pallas_network2::Behavior>::execute$", f.path)]
+    if len(ex) != 1:
+        res.violation("ban:execute-anchor", "InitiatorBehavior::execute not found", rule="anchor")
+    else:
+        f = ex[0]
+        direct = [bi for bi, t in f.calls() if (t.get("f") or "") in can_ban and not re.search(r"::housekeeping$|::handle_io$", t.get("f") or "")
+                  and "promotion::PromotionBehavior" in (t.get("f") or "")]
+        if direct:
+            res.ok("ban:command-is-immediate", "R-MPT", "execute calls a PromotionBehavior function that records the ban in banned_peers")
+        else:
+            res.violation("ban:command-is-immediate", "InitiatorBehavior::execute no longer calls a PromotionBehavior function that inserts the peer into banned_peers: "
+                          "a BanPeer command is only a flag that InitiatorState::reset() clears on disconnect, after which the peer is dialled again",
+                          where="%s:%s" % (f.file, f.line), rule="R-MPT")
+    # (b) visitors
+    n = 0
+    for f in fns:
+        if not re.search(r"PromotionBehavior as pallas_network2::behavior::initiator::PeerVisitor>::", f.path):
+            continue
+        calls = [bi for bi, t in f.calls() if (t.get("f") or "") in can_ban]
+        if not calls:
+            continue
+        n += 1
+        key = "ban:decision-on-every-path:%s" % f.name
+        bad = [r for r in f.return_blocks() if not any(flow.dominates(f, c, r) for c in calls)]
+        if bad:
+            res.violation(key, "%s can return without reaching the ban decision (%s): a violation or error threshold seen in this event is not recorded before "
+                          "InitiatorState::reset() can clear it" % (f.path, ", ".join(sorted({(f.blocks[c]["term"].get("f") or "").split("::")[-1] for c in calls}))),
+                          where="%s:%s" % (f.file, f.line), rule="R-MPT")
+        else:
+            res.ok(key, "R-MPT", "the ban decision is reached on every path")
+    res.floor("promotion visitors that can ban", n, 1)
+
+
 def run(tier):
     res = Result("C27", tier, level="other")
     P = Program(crates=["pallas_network2"])
@@ -296,6 +360,7 @@ def run(tier):
     check_limits(res, P, closure)
     check_tag_writes(res, P)
     check_connect_table(res, P)
+    check_ban_is_immediate(res, P)
     res.assumptions += ["the four peer sets are only modified through PromotionBehavior methods (their fields are pub; external writers are out of scope)",
                         "inductive reading: each rule checks that one mutator preserves the invariant, assuming it held before"]
     return finish(res,
